@@ -69,6 +69,7 @@ type Event struct {
 // Sys is the system under a controlled schedule.
 type Sys struct {
 	mu      sync.Mutex
+	evMu    sync.Mutex // Events (thread bodies add their calls' results)
 	fresh   map[uint64]bool // pages allocated by the running write transaction
 	arrived chan *Thread
 	threads []*Thread
@@ -377,8 +378,14 @@ func (s *Sys) eligible(t *Thread) bool {
 }
 
 func (s *Sys) record(tid int, what string) {
-	s.Events = append(s.Events, Event{Thread: tid, Point: what, Lock: s.lockStr()})
+	l := s.lockStr()
+	s.evMu.Lock()
+	s.Events = append(s.Events, Event{Thread: tid, Point: what, Lock: l})
+	s.evMu.Unlock()
 }
+
+// Note adds a line of a thread body (a completed library call and its result) to the event trace.
+func (s *Sys) Note(tid int, what string) { s.record(tid, what) }
 
 // yield parks the calling thread at an operation boundary.
 func (s *Sys) yield(t *Thread) { s.park(t, "op", 0) }
